@@ -1540,7 +1540,7 @@ class Translator:
                 if slot is not None:
                     # a virtual call for which the closure holds no target at all: the receiver's class is not part of the closure.  A raw call
                     # through the pointer would make CBMC try every address-taken function; reaching it is reported as outside the encoding.
-                    out.append('__VX_ASSERT(0, "VX-INTERNAL: virtual call on an object whose class is not part of the closure"); __CPROVER_assume(0);')
+                    out.append('__VX_ASSERT(0, "VX-INTERNAL: virtual call (slot %d) in %s on an object whose class is not part of the closure"); __CPROVER_assume(0);' % (slot, gname(getattr(ctx.f, 'name', '?'))[:80]))
                     if dst is not None and not isinstance(em.resolve(rt), VoidT):
                         out += s.define(dst, rt, '(%s)0' % em.ctype(rt))
                     if op == 'invoke': out.append(s.goto(normal))
@@ -1649,7 +1649,7 @@ class Translator:
             chain.append('if (%s) { %s; }' % (' || '.join(byfn[c]), callx(c)))
         for c in hints:
             chain.append('if ((void*)%s == (void*)&%s) { %s; }' % (fp, gname(c), callx(c)))
-        out.append('{ void* __vx_vp = (void*)%s; ' % vptr + ' else '.join(chain) + ' else { __VX_ASSERT(0, "VX-INTERNAL: virtual call target is not a vtable entry of this slot and signature in the closure"); __CPROVER_assume(0); } }')
+        out.append('{ void* __vx_vp = (void*)%s; ' % vptr + ' else '.join(chain) + ' else { __VX_ASSERT(0, "VX-INTERNAL: virtual call target in %s is not a vtable entry of this slot and signature in the closure"); __CPROVER_assume(0); } }' % gname(getattr(s.ctx.f, 'name', '?'))[:90])
         allc = sorted(byfn) + hints
         if op == 'invoke':
             out.append('if (__vx_pending) { %s } else { %s }' % (s.goto(unwind), s.goto(normal)))
